@@ -19,20 +19,21 @@ open PyGql PyGql.Coerce
 theorem no_resolver_call_on_rejected_arguments (reg : Reg) (fuel : Nat) (env : List (String × PV)) (sel : FieldSel) :
     (∀ e, coerceArgumentValues reg fuel env sel.args sel.defs = .error e → (resolveField reg fuel env sel).isCall = false) ∧
     (∀ key kw, resolveField reg fuel env sel = .call key kw →
-        key = sel.key ∧ coerceArgumentValues reg fuel env sel.args sel.defs = .ok kw) := by
+        key = sel.key ∧ ∃ kw', coerceArgumentValues reg fuel env sel.args sel.defs = .ok kw' ∧ kw = dictOfAssignments kw') := by
   constructor
   · intro e h
     cases e <;> simp [resolveField, h, Ev.isCall]
   · intro key kw h
     unfold resolveField at h
     split at h
-    · rename_i kw' hk; cases h; exact ⟨rfl, hk⟩
+    · rename_i kw' hk; cases h; exact ⟨rfl, kw', hk, rfl⟩
     · cases h
     · cases h
 
 private theorem resolveFields_calls (reg : Reg) (fuel : Nat) (env : List (String × PV)) :
     ∀ (sels : List FieldSel) (key : String) (kw : List (String × PV)), Ev.call key kw ∈ resolveFields reg fuel env sels →
-      ∃ sel, sel ∈ sels ∧ sel.key = key ∧ coerceArgumentValues reg fuel env sel.args sel.defs = .ok kw := by
+      ∃ sel, sel ∈ sels ∧ sel.key = key ∧
+        ∃ kw', coerceArgumentValues reg fuel env sel.args sel.defs = .ok kw' ∧ kw = dictOfAssignments kw' := by
   intro sels
   induction sels with
   | nil => intro key kw h; simp [resolveFields] at h
@@ -68,8 +69,10 @@ theorem every_call_conforms {reg : Reg} (hreg : RegOK reg) (fuel : Nat) (defs : 
   unfold executeOp at h
   split at h
   · rename_i env henv
-    obtain ⟨sel, hs, h1, h2⟩ := resolveFields_calls reg fuel env sels key kw h
-    exact ⟨sel, hs, h1, arguments_sound hreg fuel env sel.args sel.defs kw (hargs sel hs) (hfit env henv sel hs) h2⟩
+    obtain ⟨sel, hs, h1, kw', h2, rfl⟩ := resolveFields_calls reg fuel env sels key kw h
+    have hc := arguments_sound hreg fuel env sel.args sel.defs kw' (hargs sel hs) (hfit env henv sel hs) h2
+    rw [dictOfAssignments_conforms (hargs sel hs).pyNamesDistinct hc]
+    exact ⟨sel, hs, h1, hc⟩
   · simp at h
   · simp at h
 
